@@ -3,9 +3,11 @@ package checks
 import (
 	"bufio"
 	"bytes"
+	"errors"
 	"fmt"
 	"io"
 	"net"
+	"os"
 	"testing"
 	"time"
 
@@ -31,6 +33,12 @@ type scriptedReader struct {
 	// zeros > 0: every data read is preceded by that many reads returning (0, nil) ("nothing happened", io.Reader)
 	zeros   int
 	zeroCnt int
+	// viaBufio: the parser is given a *bufio.Reader in front of this reader (C06)
+	viaBufio bool
+	// timeoutAt: offsets (ends of values) at which one Read reports an expired deadline - (0, timeout error) - before
+	// the stream goes on; the application extends its deadline and asks for the next value again
+	timeoutAt map[int]bool
+	timeouts  int
 }
 
 func (r *scriptedReader) Read(p []byte) (int, error) {
@@ -49,6 +57,11 @@ func (r *scriptedReader) Read(p []byte) (int, error) {
 	}
 	if len(p) == 0 {
 		return 0, nil
+	}
+	if r.timeoutAt[r.pos] {
+		delete(r.timeoutAt, r.pos)
+		r.timeouts++
+		return 0, &net.OpError{Op: "read", Net: "tcp", Err: os.ErrDeadlineExceeded}
 	}
 	if r.zeroCnt < r.zeros {
 		r.zeroCnt++
@@ -271,6 +284,11 @@ func parseAll(r *scriptedReader, want []resp.Value, wrap int, deferred bool) (st
 	}
 	for i, w := range want {
 		m, err := p.Next()
+		if err != nil && errors.Is(err, os.ErrDeadlineExceeded) && r.timeouts > 0 && wrap == 0 {
+			// the read deadline expired while the parser waited for this value (nothing of it had arrived): the
+			// application extends the deadline and asks again
+			m, err = p.Next()
+		}
 		if err != nil {
 			return "error", fmt.Sprintf("value %d (%s): parser error %v", i, w, err)
 		}
@@ -394,6 +412,12 @@ func runC02(t *testing.T, tape *sim.Tape, tier string) *Outcome {
 	check(&scriptedReader{data: data}, "whole")
 	checkW(&scriptedReader{data: data}, "whole", 1, true)
 	checkW(&scriptedReader{data: data}, "whole", 4, false)
+	if len(valueEnds) > 1 {
+		// a read deadline that expires once between two values (at a seed-chosen value boundary), whole and byte-wise
+		at := valueEnds[tape.Draw(len(valueEnds)-1, "timeoutat")]
+		checkW(&scriptedReader{data: data, timeoutAt: map[int]bool{at: true}}, fmt.Sprintf("whole, one expired read deadline at byte %d", at), 0, false)
+		checkW(&scriptedReader{data: data, one: true, timeoutAt: map[int]bool{at: true}}, fmt.Sprintf("byte-wise, one expired read deadline at byte %d", at), 0, false)
+	}
 	checkW(&scriptedReader{data: data, piggy: true}, "whole+EOF", 2, true)
 	// every 2-way split (streams up to 4 KiB), both end-of-stream styles alternate
 	if len(data) <= 4096 {
@@ -505,7 +529,7 @@ func init() {
 	register(&Check{
 		ID: "C02", Bubble: false, Run: runC02,
 		Runs:   map[string]int{"quick": 6000, "thorough": 200000},
-		Rule:   "a case is one (value sequence, read partition) pair: every 2-way split and the all-1-byte delivery of each generated stream <= 4 KiB plus 4 seeded k-way partitions biased to structural offsets; for streams with bulks of 1 KiB..512 KiB (2^k-1, 2^k, 2^k+1 up to k=19, a few beyond 1 MiB) every split within [-20,+4] bytes of each power-of-two offset of the payload; every split is also delivered through a bufio.Reader (16-byte and default buffer) or a reader that also reports Len() in front of the chunking reader with the returned messages inspected only after the whole stream was parsed (a parsed value must not change when the parser reads on), end of stream arriving alone or together with the last bytes; one line-framed value in sixteen is 255..131070 bytes long (powers of two +-1 and small multiples of 2^k-1); with the reader handed over directly (also typed as a net.Conn) the bytes taken from it when a value is returned are exactly those up to the end of that value; deliveries with 1..3 empty reads (0 bytes, no error) in front of every data read; distinct = distinct (stream, partition) hashes; non-trivial = stream longer than 4 bytes",
+		Rule:   "a case is one (value sequence, read partition) pair: every 2-way split and the all-1-byte delivery of each generated stream <= 4 KiB plus 4 seeded k-way partitions biased to structural offsets; for streams with bulks of 1 KiB..512 KiB (2^k-1, 2^k, 2^k+1 up to k=19, a few beyond 1 MiB) every split within [-20,+4] bytes of each power-of-two offset of the payload; every split is also delivered through a bufio.Reader (16-byte and default buffer) or a reader that also reports Len() in front of the chunking reader with the returned messages inspected only after the whole stream was parsed (a parsed value must not change when the parser reads on), end of stream arriving alone or together with the last bytes; one line-framed value in sixteen is 255..131070 bytes long (powers of two +-1 and small multiples of 2^k-1); with the reader handed over directly (also typed as a net.Conn) the bytes taken from it when a value is returned are exactly those up to the end of that value; one read deadline that expires between two values (the next value is asked for again); deliveries with 1..3 empty reads (0 bytes, no error) in front of every data read; distinct = distinct (stream, partition) hashes; non-trivial = stream longer than 4 bytes",
 		Real:   []string{"redis/proto parser (NewParserWithReader, Next)"},
 		Stub:   []string{"transport: scripted io.Reader deciding read sizes and end-of-stream style"},
 		Assume: []string{"readers never return (0, nil)"},
